@@ -39,6 +39,15 @@ Programs3Fault ==
        i \in { <<{<<A1, "s.v">>}, {<<A1, "s.v">>}>>,       \* fork  a -> b, a -> c
                <<{}, {<<A2, "s.v">>}>> } }                  \* a alone, b -> c
 ProgramsChain == { p \in Programs3Focus : p.kind[A2] = "task" /\ p.kind[A3] = "task" /\ p.ins[A3] = {<<A2, "s.v">>} }   \* a -> b -> c, tasks
+(* feedback: the chain / the fork, the first algorithm declares a value of the last one as feedback input *)
+Programs3Fb ==
+  { [kind |-> (A1 :> "task" @@ A2 :> k2 @@ A3 :> "task"),
+     ins  |-> (A1 :> {} @@ A2 :> {<<A1, "s.v">>} @@ A3 :> i3),
+     vals |-> (A1 :> V(A1) @@ A2 :> V(A2) @@ A3 :> V(A3)),
+     fb   |-> (A1 :> {<<A3, "s.v">>} @@ A2 :> f2 @@ A3 :> {})] :
+       k2 \in {"task", "analysis"}, i3 \in { {<<A2, "s.v">>}, {<<A1, "s.w">>} }, f2 \in { {} } }
+(* one declarer per fed-back value: dag.Construct.feedbacks maps a value to ONE declarer (C09: "mapped to a consumer"),
+   so a second declarer of the same value is never told -- observed, outside the claim (DESIGN 10.3) *)
 (* task-only programs with value-level declarations: executed end to end by the real worker code *)
 Programs3Task == Progs3({"task"}, Pairs)
 Progs4(K, P(_)) ==
@@ -49,4 +58,7 @@ Progs4(K, P(_)) ==
        i2 \in SUBSET P({A1}), i3 \in SUBSET P({A1, A2}), i4 \in SUBSET P({A1, A2, A3}) }
 Programs4Alg == Progs4(Kinds2, AlgLevel)
 Programs4Val == Progs4(Kinds3, Pairs)
+(* a feedback loop keeps producing work for as long as the fed-back value keeps changing: the completion counter is
+   the finiteness bound of those instances *)
+RecBound == nrec <= 6
 =============================================================================
